@@ -103,11 +103,14 @@ def h_complex_on_real(B, n=4, p=3, k=2, cross=False):
         B.eq("ComplexMCA(real data) == MCA: components2", m2.components()[1], m1.components()[1])
 
 
-def h_eeof1(B, n=4, p=2, k=2):
+def h_eeof1(B, n=4, p=2, k=2, flags=None):
+    flags = dict(flags or {})
     X = da2d(B, "x", n, p)
-    m1 = M.single("EOF", n_modes=k, solver="full").fit(X, "time")
+    if flags.get("standardize"):
+        oracle_matrix(X, "time", standardize=True, B=B)  # assumes every std above the clipping floor (the property's own quantifier)
+    m1 = M.single("EOF", n_modes=k, solver="full", **flags).fit(X, "time")
     B.covers("ExtendedEOF with embedding=1")
-    m2 = B.completes("ExtendedEOF(embedding=1).fit runs", lambda: M.single("ExtendedEOF", n_modes=k, tau=1, embedding=1, solver="full").fit(X, "time"))
+    m2 = B.completes("ExtendedEOF(embedding=1).fit runs", lambda: M.single("ExtendedEOF", n_modes=k, tau=1, embedding=1, solver="full", **flags).fit(X, "time"))
     if m2 is None:
         return
     B.eq("ExtendedEOF(embedding=1) == EOF: singular values", m2.data["norms"], m1.data["norms"])
@@ -119,10 +122,13 @@ def h_eeof1(B, n=4, p=2, k=2):
     B.eq("ExtendedEOF(embedding=1) == EOF: components", c2, m1.components())
 
 
-def h_mca_self(B, n=4, p=2, k=2):
+def h_mca_self(B, n=4, p=2, k=2, flags=None):
+    flags = dict(flags or {})
     X = da2d(B, "x", n, p)
-    m1 = M.single("EOF", n_modes=k, solver="full").fit(X, "time")
-    m2 = M.cross("MCA", n_modes=k, use_pca=False, solver="full").fit(X, X, "time")
+    if flags.get("standardize"):
+        oracle_matrix(X, "time", standardize=True, B=B)
+    m1 = M.single("EOF", n_modes=k, solver="full", **flags).fit(X, "time")
+    m2 = M.cross("MCA", n_modes=k, use_pca=False, solver="full", **flags).fit(X, X, "time")
     B.covers("MCA(X, X) vs EOF(X)")
     B.eq("MCA(X,X): singular values == EOF explained variances", m2.data["singular_values"].data, m1.explained_variance().data)
     c1 = m1.components()
@@ -171,6 +177,11 @@ def configs(tier):
     add("h_eeof1", "ExtendedEOF(embedding=1) vs EOF")
     add("h_mca_self", "MCA(X,X) vs EOF(X)")
     add("h_mca_self", "MCA(X,X) vs EOF(X)|n4p3", n=4, p=3)
+    # the equalities are claimed for every preprocessing flag: a normalisation that depends on a flag on one side only breaks them
+    add("h_mca_self", "MCA(X,X) vs EOF(X)|n4p3|standardize", n=4, p=3, flags={"standardize": True})
+    add("h_eeof1", "ExtendedEOF(embedding=1) vs EOF|n4p3|standardize", n=4, p=3, flags={"standardize": True})
+    # not included: ExtendedEOF(embedding=1, center=False) - the inner EOF of ExtendedEOF always centres the embedded matrix (C01 requires
+    # that), so with center=False the pair differs by design of the class; see DESIGN.md 9.7
     add("h_pca_all", "PCA all modes vs no PCA|complex|alpha=1 (decided at witnesses only)", cplx=True)
     # the Hilbert variants transform the PC scores AFTER the PCA step: whitening then acts on correlated columns
     add("h_pca_all", "PCA all modes vs no PCA|Hilbert|alpha=0|n6 (decided at witnesses only)", hilbert=True, alpha=0.0, n=6)  # n=6: with n=4 the canonical correlations are all 1 (p+q >= n-1) and the patterns are not unique
